@@ -7,7 +7,19 @@ SELF, ALL = "self", "all"
 KNOWN_ENT = set([1, 2, 3]) | set(range(100, 109))
 CONFORM = {"ok": True, "extra": True, "none": False, "null": False, "wrongtype": False, "missing": False,
            "big": True, "notobj": False, "badjson": False}
-CODE = {"ok": 0, "none": 1, "extra": 2, "null": 3, "wrongtype": 4, "missing": 5, "big": 6, "notobj": 7, "badjson": 8}
+CODE = {"ok": 0, "none": 1, "extra": 2, "null": 3, "wrongtype": 4, "missing": 5, "big": 6, "notobj": 7, "badjson": 8, "ukey": 9}
+
+
+def tag_of(a):
+    code = CODE.get(a["js"], 99)
+    if code == 1: return 1000
+    if code == 9: return 1000000 + 2 * (int(a["v"]) % 8) + 1
+    return int(a["v"]) + 1000 * code
+
+
+def conforms(a):
+    if a["js"] == "ukey": return int(a["e"]) == 102
+    return CONFORM.get(a["js"], False)
 
 
 def kv(line):
@@ -335,7 +347,7 @@ class C02(Cfg):
             if ent not in KNOWN_ENT: obj.append(("unknown-entity-stored", "row %s" % (new,)))
             if a["js"] == "none":
                 obj.append(("json-absent-accepted", "row %d of entity %d stored without JSON although `name` is mandatory" % (id_, ent)))
-            elif not CONFORM.get(a["js"], False): obj.append(("nonconforming-row-stored", "row %d shape %s" % (id_, a["js"])))
+            elif not conforms(a): obj.append(("nonconforming-row-stored", "row %d shape %s" % (id_, a["js"])))
             if a["js"] == "big": obj.append(("oversized-row-stored", "row %d" % id_))
             need = ALL if (old is not None and old[5] != k) else SELF
             if not can(r_, k, ent, md, need): obj.append(("row-without-right", "row %s needs %s in room %s" % (new, need, r_)))
@@ -350,8 +362,7 @@ class C02(Cfg):
 
         recs = {}
         for a in pend["node"]:
-            code = CODE.get(a["js"], 99)
-            tag = 1000 if code == 1 else int(a["v"]) + 1000 * code
+            tag = tag_of(a)
             recs.setdefault((int(a["id"]), int(a["r"]), int(a["e"]), int(a["c"]), int(a["m"]), int(a["k"]), tag), []).append(a)
         for id_, new in after_n.items():
             old = before_n.get(id_)
